@@ -14,6 +14,8 @@ EXTENDS Corpus, Automaton
 Usable(c) == Obs(c).verdict = "ok"
 D(c) == Obs(c).min
 Subs(c) == Obs(c).minsubs
+MaxOf(S) == IF S = {} THEN 0 ELSE CHOOSE x \in S : \A y \in S : y <= x
+MaxTr(c) == MaxOf({Len(D(c).tr)} \cup { Len(Subs(c)[w].tr) : w \in 1..Len(Subs(c)) })
 
 \* a literal as a one-transition automaton
 LitAuto(l) == [start |-> 0, acc |-> <<1>>, tr |-> <<[f |-> 0, l |-> l, t |-> 1]>>]
@@ -38,18 +40,24 @@ StepSide(a, S, ch) ==
 \* a placeholder at a boundary reads any rest, including the character just typed
 Close(a, S) == S \cup (IF \E x \in S : x # ANY /\ x.rest = <<>> /\ \E j \in TrFrom(a, x.q) : a.tr[j].l.k = "star" THEN {ANY} ELSE {})
 
-Pairs(c) == { <<i, j>> \in (1..Len(D(c).tr)) \X (1..Len(D(c).tr)) :
-                /\ i < j /\ D(c).tr[i].f = D(c).tr[j].f /\ D(c).tr[i].t # D(c).tr[j].t
-                /\ D(c).tr[i].l.k \in {"lit", "sub"} /\ D(c).tr[j].l.k = D(c).tr[i].l.k
-                /\ D(c).tr[i].f \in Reach(D(c)) }
+\* the automaton looked at: 0 = the main one, w > 0 = the w-th within-word automaton (inside a word the items are literal tokens;
+\* the same token expected twice from one inner state with different targets is the same situation one level down)
+DA(c, w) == IF w = 0 THEN D(c) ELSE Subs(c)[w]
+Pairs(c) == { <<w, i, j>> \in (0..Len(Subs(c))) \X (1..MaxTr(c)) \X (1..MaxTr(c)) :
+                /\ i < j /\ j <= Len(DA(c, w).tr)
+                /\ DA(c, w).tr[i].f = DA(c, w).tr[j].f /\ DA(c, w).tr[i].t # DA(c, w).tr[j].t
+                /\ DA(c, w).tr[i].l.k \in (IF w = 0 THEN {"lit", "sub"} ELSE {"lit"}) /\ DA(c, w).tr[j].l.k = DA(c, w).tr[i].l.k
+                /\ DA(c, w).tr[i].f \in Reach(DA(c, w)) }
 
 VARIABLES case, pair, A, B, hist
+TrL(c, p) == DA(c, p[1]).tr[p[2]]
+TrR(c, p) == DA(c, p[1]).tr[p[3]]
 Init == \E c \in 1..N : Usable(c) /\ \E p \in Pairs(c) :
           /\ case = c /\ pair = p /\ hist = <<>>
-          /\ A = Close(SideAuto(c, D(c).tr[p[1]].l), StartConf(SideAuto(c, D(c).tr[p[1]].l)))
-          /\ B = Close(SideAuto(c, D(c).tr[p[2]].l), StartConf(SideAuto(c, D(c).tr[p[2]].l)))
-aA == SideAuto(case, D(case).tr[pair[1]].l)
-aB == SideAuto(case, D(case).tr[pair[2]].l)
+          /\ A = Close(SideAuto(c, TrL(c, p).l), StartConf(SideAuto(c, TrL(c, p).l)))
+          /\ B = Close(SideAuto(c, TrR(c, p).l), StartConf(SideAuto(c, TrR(c, p).l)))
+aA == SideAuto(case, TrL(case, pair).l)
+aB == SideAuto(case, TrR(case, pair).l)
 Both == hist # <<>> /\ MayStop(aA, A) /\ MayStop(aB, B)
 Next == /\ ~Both
         /\ \E ch \in NextChars(aA, A) \cup NextChars(aB, B) :
@@ -58,8 +66,8 @@ Next == /\ ~Both
              /\ hist' = Append(hist, ch)
         /\ UNCHANGED <<case, pair>>
 View == <<case, pair, A, B>>
-Report == ~Both \/ PrintT(<<"MISMATCH", ToJson([id |-> Cases[case].id, word |-> hist, state |-> D(case).tr[pair[1]].f,
-                               left |-> D(case).tr[pair[1]].l, right |-> D(case).tr[pair[2]].l,
-                               lto |-> D(case).tr[pair[1]].t, rto |-> D(case).tr[pair[2]].t])>>)
-Seen == hist # <<>> \/ PrintT(<<"VALIDATED", Cases[case].id, pair[1], pair[2]>>)
+Report == ~Both \/ PrintT(<<"MISMATCH", ToJson([id |-> Cases[case].id, word |-> hist, where |-> pair[1], state |-> TrL(case, pair).f,
+                               left |-> TrL(case, pair).l, right |-> TrR(case, pair).l,
+                               lto |-> TrL(case, pair).t, rto |-> TrR(case, pair).t])>>)
+Seen == hist # <<>> \/ PrintT(<<"VALIDATED", Cases[case].id, pair[1], pair[2], pair[3]>>)
 =======================================================================
